@@ -13,12 +13,12 @@ def units(tier, seed):
         g = [(n, m) for n in (1, 2, 3) for m in (1, 2, 3, 4)] + [(4, 2), (4, 3)]
         t = _mk.QUICK_TABLES
     else:
-        g = [(n, m) for n in (1, 2, 3, 4) for m in range(1, 7)] + [(5, 2), (5, 3)]
+        g = [(n, m) for n in (1, 2, 3) for m in range(1, 7)] + [(4, m) for m in range(1, 5)] + [(5, 2), (5, 3)]
         t = _mk.THOROUGH_TABLES
     us = gen.kernel_units(g)
     for n, m in g:
         us.append({'name': f'lindig order {n}x{m}', 'fn': 'unit_lindig', 'args': {'n': n, 'm': m},
-                   'split': 7 if n * m >= 9 else 0})
+                   'split': (10 if n * m >= 16 else 7) if n * m >= 9 else 0})
     us += _mk.table_units(t)
     us += _mk.inductive_units(tier) + _mk.skeleton_kernel_units(tier, seed) + _mk.skeleton_units(tier, seed)
     return _mk.order(us)
